@@ -702,6 +702,6 @@ for nm, what in [("c01_unescape_plain", "no escape"), ("c01_unescape_newline", "
                  ("c01_unescape_nonascii_escape", "2-byte character before an escape: no slicing inside the character"),
                  ("c01_unescape_quote_tab", "escaped quote and backslash-t")]:
     for pp in (("C01", "C05") if "nonascii" in nm else ("C01",)):
-        H(pp, f"parser::verif_h::{nm}", PAR, tier="thorough", covers=1, timeout=3000, mem_gb=24,
+        H(pp, f"parser::verif_h::{nm}", PAR, tier="quick", covers=1, timeout=1500, mem_gb=24,
           stubs=["core::slice::memchr::memchr (behind str::find) -> plain byte loop with the same contract"], functions=["unescape"],
           what=f".stringz escape processing on a concrete literal: {what}", bounds="concrete literal of <= 4 bytes")
